@@ -66,6 +66,7 @@ Sources of variation the property quantifies over — theorem (lexer level) / ju
 | encoding UTF-16LE / BE | C (decoder level) | `u16le`, `u16be`, `:c<k>`, `:pt:c<k>` | utf16be-surrogate-pair (fixed), utf16-error-recovery |
 | encoding: custom decode function | – | `custom:c<k>` (a UTF-8 decoder passed as `TSInputEncodingCustom`) | – |
 | callback style: whole slice vs callback | – | canonical = `Parser::parse(slice)`; every other drive is a callback | – |
+| parser reuse ACROSS ENCODINGS (UTF-8 ↔ UTF-16LE ↔ UTF-16BE ↔ custom decoder, non-ASCII text; every final encoding) | – | `hist:enc8|enc16le|enc16be|enccustom`, `<u16le|u16be|custom>:after:<ops>` | – (seeded C09-r6) |
 | parser reuse: other / same / half document | – | `hist:other|same|half` | – |
 | old-tree-less re-parse after an incremental parse | – | `hist:incr`, `hist:same` | – |
 | other language, switched back (with parse / without / with a pending cancelled parse) | – | `hist:lang|flip|langcancel` | – |
